@@ -55,6 +55,13 @@ func c03Behaviours() []c03Behaviour {
 				c.RespMsgs, c.End = nil, errEnd
 			}
 		}},
+		{"error-flush-after-header", func(c *mxCall, _ string) {
+			c.RespMsgs, c.End = nil, errEnd
+			c.Mutate = func(sr *wire.ServerResp, rep *world.Reply) { rep.FlushAfterHeader = true }
+		}},
+		{"ok-flush-after-header", func(c *mxCall, _ string) {
+			c.Mutate = func(sr *wire.ServerResp, rep *world.Reply) { rep.FlushAfterHeader = true }
+		}},
 		{"ok-trailers-only-status0", func(c *mxCall, _ string) { c.RespMsgs, c.TrailersOnly = nil, true }},
 		{"resp-uncompressed-frame0", func(c *mxCall, _ string) {
 			c.RespFlags = make([]bool, len(c.RespMsgs))
